@@ -244,6 +244,56 @@ func genC04(t *simrt.Tape, big bool) *qProgram {
 	return p
 }
 
+// genStress draws a many-goroutine program with large parameters (capacity up to
+// 16, up to 8 producers and 8 consumers, up to 64 values).  The linearizability
+// search is skipped for these (too long); every other oracle applies, plus the
+// per-producer order oracle.
+func genStress(t *simrt.Tape, pipeline bool) *qProgram {
+	p := &qProgram{Shape: "stress", Capacity: t.Range(4, 16)}
+	if pipeline {
+		p.Shape = "pipeline"
+	}
+	np := t.Range(3, 8)
+	for i := 0; i < np; i++ {
+		n := t.Range(2, 8)
+		task := qTask{Role: "producer"}
+		for k := 0; k < n; k++ {
+			task.Ops = append(task.Ops, qOp{Kind: "add", Val: (i+1)*100 + k + 1})
+		}
+		p.Tasks = append(p.Tasks, task)
+	}
+	p.Closer = pipeline || t.Choose(2) == 1
+	nc := t.Range(2, 8)
+	for i := 0; i < nc; i++ {
+		task := qTask{Role: "consumer"}
+		if p.Closer && (pipeline || t.Choose(2) == 1) {
+			task.Ops = []qOp{{Kind: "drain"}}
+		} else {
+			n := t.Range(1, 8)
+			for k := 0; k < n; k++ {
+				task.Ops = append(task.Ops, qOp{Kind: "remove"})
+			}
+		}
+		p.Tasks = append(p.Tasks, task)
+	}
+	no := t.Choose(3)
+	for i := 0; i < no; i++ {
+		p.Tasks = append(p.Tasks, genObserver(t))
+	}
+	if t.Choose(3) == 2 {
+		n := t.Range(1, 3)
+		task := qTask{Role: "resetter"}
+		for k := 0; k < n; k++ {
+			task.Ops = append(task.Ops, qOp{Kind: "removeall"})
+		}
+		p.Tasks = append(p.Tasks, task)
+	}
+	if p.Closer {
+		p.Tasks = append(p.Tasks, qTask{Role: "closer", Ops: []qOp{{Kind: "close"}}})
+	}
+	return p
+}
+
 // genC05 draws a well-formed pipeline or an open program.
 func genC05(t *simrt.Tape) *qProgram {
 	p := &qProgram{Capacity: t.Range(1, 3)}
@@ -485,8 +535,28 @@ func checkQueueRun(ctx *Ctx, qr *qRun, linearize bool) {
 		}
 	}
 
+	// -- order of one producer's values (C04): if AddValue(a) returned before
+	// AddValue(b) was invoked, b must not be delivered strictly before a.
+	for va, a := range o.adds {
+		for vb, b := range o.adds {
+			if va == vb || !a.Returned || !(a.Ret < b.Inv) {
+				continue
+			}
+			da, db := o.dels[va], o.dels[vb]
+			if db == nil {
+				continue
+			}
+			if da != nil && db.Ret < da.Inv {
+				o.v("C04", "fifo-order", "later-add-delivered-first", fmt.Sprintf("value %d was added strictly before %d but delivered strictly after it; history: %s", va, vb, hist))
+			}
+			if da == nil && len(o.ras) == 0 && res.End == "done" && allDone {
+				o.v("C04", "fifo-order", "earlier-add-never-delivered", fmt.Sprintf("value %d (added strictly before %d) was never delivered although %d was and no RemoveAll ran; history: %s", va, vb, vb, hist))
+			}
+		}
+	}
+
 	// -- linearizability (C04)
-	if linearize {
+	if linearize && qr.prog.Shape != "stress" && qr.prog.Capacity <= 5 {
 		o.checkLinearizable(hist)
 	}
 
